@@ -41,7 +41,7 @@ var (
 	allKeyIDs []int
 	codeBlobs = [][]byte{nil, {0x60, 0x00}, {0x60, 0x01, 0x60, 0x02, 0x01}, {0xfe}} // never empty: SetCode(a, empty) stores Keccak(empty) != emptyCodeHash (SHA3-256) and a later code load fails
 	hashID    = map[common.Hash]int{}
-	thashes   = []common.Hash{common.BytesToHash([]byte{0x77, 1}), common.BytesToHash([]byte{0x77, 2})}
+	thashes   = []common.Hash{common.BytesToHash([]byte{0x77, 1}), common.BytesToHash([]byte{0x77, 2}), common.BytesToHash([]byte{0x77, 3})}
 	boundTok  = common.HexToAddress("0x00000000000000000000000000000000000c0de9")
 	bindAddr  common.Address
 	ftName    = "ft"
@@ -141,6 +141,8 @@ func (o *Op) coq() string {
 		return fmt.Sprintf("O%s %d %d", o.K, o.A, o.Key)
 	case "SetTransient":
 		return fmt.Sprintf("OSetTransient %d %d %d", o.A, o.Key, o.N)
+	case "Prepare":
+		return fmt.Sprintf("OPrepare %d", o.H)
 	case "GetRefund":
 		return "OGetRefund"
 	case "GetLogs":
@@ -229,7 +231,7 @@ func genQuery(r *hx.Rng) *Op {
 	case 9:
 		return &Op{K: "GetRefund"}
 	case 10:
-		return &Op{K: "GetLogs", H: r.Intn(2)}
+		return &Op{K: "GetLogs", H: r.Intn(3)}
 	case 11:
 		return &Op{K: "ALHasAddr", A: a}
 	case 12:
@@ -264,13 +266,13 @@ func fullObs(withData bool) []*Op {
 			l = append(l, &Op{K: "GetData", A: tokenID, Key: 1000 + a})
 		}
 	}
-	l = append(l, &Op{K: "GetRefund"}, &Op{K: "GetLogs", H: 0}, &Op{K: "GetLogs", H: 1})
+	l = append(l, &Op{K: "GetRefund"}, &Op{K: "GetLogs", H: 0}, &Op{K: "GetLogs", H: 1}, &Op{K: "GetLogs", H: 2})
 	return l
 }
 
 // the queries that do not go through an account object
 func globalObs() []*Op {
-	l := []*Op{{K: "GetRefund"}, {K: "GetLogs", H: 0}, {K: "GetLogs", H: 1}}
+	l := []*Op{{K: "GetRefund"}, {K: "GetLogs", H: 0}, {K: "GetLogs", H: 1}, {K: "GetLogs", H: 2}}
 	for _, a := range obsAddrs() {
 		l = append(l, &Op{K: "ALHasAddr", A: a})
 		for _, k := range genKeys {
@@ -315,7 +317,7 @@ func genMut(r *hx.Rng, exotic bool) *Op {
 		}
 	}
 	for {
-		switch r.Intn(30) {
+		switch r.Intn(34) {
 		case 0, 1:
 			return &Op{K: "SetNonce", A: a, N: uint64(r.Intn(4))}
 		case 2:
@@ -484,6 +486,9 @@ func (c *execCtx) step(o *Op) string {
 		return "AB " + hx.CoqBool(s.Suicide(a))
 	case "CreateAccount":
 		s.CreateAccount(a)
+	case "Prepare":
+		// transaction boundary on the same AccountDB (no Finalise in between)
+		s.Prepare(thashes[o.H], common.BytesToHash([]byte{0xbb}), o.H)
 	case "AddLog":
 		s.AddLog(&types.Log{Address: a, Data: []byte{byte(o.N)}})
 	case "AddRefund":
@@ -931,6 +936,21 @@ func main() {
 				pre = []*Item{{Op: &Op{K: "SetNonce", A: x, N: 1}}}
 			}
 			inject = []*Item{{Body: []*Item{{Op: &Op{K: "AddFT", A: x, N: 0}}}, Rv: true, Obs: []*Op{{K: "Exist", A: x}, {K: "GetNonce", A: x}}}}
+		case 15, 16:
+			// an earlier transaction leaves k kept revisions on the stack; after Prepare a later transaction takes fewer /
+			// more snapshots and reverts: the revert must unwind only its own bracket
+			x, y := r.Intn(6), r.Intn(6)
+			var tx1 []*Item
+			tx1 = append(tx1, &Item{Op: &Op{K: "SetNonce", A: x, N: 5}})
+			for k := 1 + r.Intn(3); k > 0; k-- {
+				tx1 = []*Item{{Body: append(tx1, &Item{Op: &Op{K: "AddBalance", A: y, N: uint64(3 + k)}}), Rv: false, Obs: []*Op{{K: "GetNonce", A: x}}}}
+			}
+			obs := []*Op{{K: "GetNonce", A: x}, {K: "GetBalance", A: y}, {K: "Exist", A: x}}
+			tx2 := []*Item{{Body: []*Item{{Op: &Op{K: "SetNonce", A: x, N: 7}}, {Op: &Op{K: "AddLog", N: 9}}}, Rv: true, Obs: obs}}
+			if r.Intn(2) == 0 {
+				tx2 = []*Item{{Body: append([]*Item{{Op: &Op{K: "SetData", A: x, Key: 1, V: []byte{4}}}}, tx2...), Rv: r.Intn(2) == 0, Obs: obs}}
+			}
+			inject = append(append(tx1, &Item{Op: &Op{K: "Prepare", H: 1 + r.Intn(2)}}), tx2...)
 		case 8:
 			// uint64 wrap-around of the nonce, kept or reverted
 			x := r.Intn(6)
@@ -973,25 +993,45 @@ func main() {
 		}
 		hotSlotA = hotA
 		prog := genItems(r, 3, 2+r.Intn(10), exotic)
+		if r.Intn(3) == 0 {
+			// 2-4 transactions on this AccountDB: Prepare between segments, each segment with its own brackets (kept
+			// ones leave their revisions on the stack, so later transactions snapshot on top of earlier ones)
+			for n := 1 + r.Intn(3); n > 0; n-- {
+				prog = append(prog, &Item{Op: &Op{K: "Prepare", H: r.Intn(3)}})
+				prog = append(prog, genItems(r, 3, 1+r.Intn(6), exotic)...)
+			}
+		}
 		hotAddr, hotSlotA = -1, -1
+		volume := ""
+		if ci%100 == 3 {
+			prog, volume = volumeProgram(r, ci == 3, a.Tier == "thorough")
+			inject = nil
+		}
 		if inject != nil {
 			at := r.Intn(len(prog) + 1)
 			prog = append(append(append([]*Item{}, prog[:at]...), inject...), prog[at:]...)
 		}
-		ptxt := coqItems(prog)
+		ptxtFull := coqItems(prog)
+		ptxt := ptxtFull
+		if volume != "" {
+			ptxt = volume + " | " + trunc(ptxtFull, 1500)
+		}
 		f := facts(prog)
 		// guard of theorem C04_continuation (reverted parts and continuation): Proposal002, no self-destruct,
 		// no zero-amount AddFT (touch), no GetCommittedState anywhere in the program
 		guarded := p002
 		walk(prog, func(o *Op, rev bool) {
-			if o.K == "Suicide" || o.K == "GetCommitted" || (o.K == "AddFT" && o.N == 0) {
+			if o.K == "Suicide" || o.K == "GetCommitted" || o.K == "Prepare" || (o.K == "AddFT" && o.N == 0) {
 				guarded = false
 			}
 		}, false)
 
 		// run 1 (concretises SubRefund amounts), finalise(false)
 		c1, pan := execute(root0, adb, prog, true)
-		ptxt = coqItems(prog)
+		ptxtFull = coqItems(prog)
+		if volume == "" {
+			ptxt = ptxtFull
+		}
 		if pan != nil {
 			res.Violate("C04/panic:execute", fmt.Sprint(pan), ptxt)
 			res.Count("panic", ptxt, false)
@@ -1040,8 +1080,8 @@ func main() {
 					strings.HasPrefix(b.before[i], "ABy") && beEq(b.before[i], b.after[i]):
 					key = "C04/revert:suicide-undo-reencodes-balance-slot"
 				}
-				res.Violate(key, fmt.Sprintf("query %s answered %s before Snapshot and %s after RevertToSnapshot", q.coq(), b.before[i], b.after[i]),
-					map[string]interface{}{"p002": p002, "token_bound": ci >= phase2At, "start": coqDump(start), "program": ptxt, "bracket": coqItems([]*Item{b.it})})
+				res.Violate(key, fmt.Sprintf("query %s answered %s before Snapshot and %s after RevertToSnapshot", q.coq(), diffShow(b.before[i], b.after[i]), diffShow(b.after[i], b.before[i])),
+					map[string]interface{}{"p002": p002, "token_bound": ci >= phase2At, "start": coqDump(start), "program": ptxt, "bracket": trunc(coqItems([]*Item{b.it}), 4000)})
 			}
 			cl := class + "/revert-ok"
 			if !ok {
@@ -1075,7 +1115,7 @@ func main() {
 				for i := range gq {
 					if ga[i] != gr[i] {
 						gok = false
-						res.Violate("C04/continuation:"+gq[i].K, fmt.Sprintf("at the end of the program %s answers %s, in the reference replay of the surviving operations %s", gq[i].coq(), ga[i], gr[i]),
+						res.Violate("C04/continuation:"+gq[i].K, fmt.Sprintf("at the end of the program %s answers %s, in the reference replay of the surviving operations %s", gq[i].coq(), diffShow(ga[i], gr[i]), diffShow(gr[i], ga[i])),
 							map[string]interface{}{"p002": p002, "start": coqDump(start), "program": ptxt, "reference_program": coqItems(ref)})
 					}
 				}
@@ -1162,8 +1202,11 @@ func main() {
 			continue
 		}
 		// model case
-		term := fmt.Sprintf("Case %s %s %d %s 0 %s %s [%s] %s %s", coqDump(start), coqCodes(), tokenID, hx.CoqBool(p002), hx.CoqHex(ripemdActual), ptxt,
+		term := fmt.Sprintf("Case %s %s %d %s 0 %s %s [%s] %s %s", coqDump(start), coqCodes(), tokenID, hx.CoqBool(p002), hx.CoqHex(ripemdActual), ptxtFull,
 			strings.Join(c1.answers, "; "), coqDump(fin[0]), coqDump(fin[1]))
+		if len(term) >= 60000 {
+			res.Count(class+"/too-large-for-a-model-case(direct search only)", ptxt+"/big", true)
+		}
 		if len(term) < 60000 {
 			cs.Add(term, map[string]interface{}{"p002": p002, "token_bound": ci >= phase2At, "start": coqDump(start), "program": ptxt})
 		}
@@ -1215,12 +1258,92 @@ func lifecycle(res *hx.Result, s *account.AccountDB, existed map[int]bool, class
 	}
 }
 
+// volumeProgram: thousands of journal entries of ONE kind before and inside a reverted bracket (caps, pools and
+// compaction only show at volume).  Sizes sit around powers of two and round numbers.  first = the directed case
+// "4090 logs, then a reverted bracket that carries the transaction past 4096 logs".
+func volumeProgram(r *hx.Rng, first, thorough bool) ([]*Item, string) {
+	sizes := []int{255, 256, 1000, 1023, 1024, 4095, 4096, 4097, 5000}
+	if thorough {
+		sizes = append(sizes, 10000)
+	}
+	kinds := []string{"AddLog", "AddLog", "IncNonce", "SetNonce", "SetData", "AddBalance", "SetTransient", "AddRefund", "SetCode", "Transfer", "ALSlot"}
+	kind, n := kinds[r.Intn(len(kinds))], sizes[r.Intn(len(sizes))]
+	before, inside := n-6, 20
+	if r.Intn(2) == 0 {
+		before, inside = 7, n
+	}
+	if first {
+		kind, before, inside = "AddLog", 4090, 20
+	}
+	x, y := r.Intn(6), r.Intn(6)
+	mk := func(i int) *Item {
+		switch kind {
+		case "AddLog":
+			return &Item{Op: &Op{K: "AddLog", N: uint64(i % 200)}}
+		case "IncNonce":
+			return &Item{Op: &Op{K: "IncNonce", A: x}}
+		case "SetNonce":
+			return &Item{Op: &Op{K: "SetNonce", A: x, N: uint64(i%7 + 1)}}
+		case "SetData":
+			return &Item{Op: &Op{K: "SetData", A: x, Key: i % 4, V: []byte{byte(i%5 + 1), byte(i % 3)}}}
+		case "AddBalance":
+			return &Item{Op: &Op{K: "AddBalance", A: x, N: uint64(i%9 + 1)}}
+		case "SetTransient":
+			return &Item{Op: &Op{K: "SetTransient", A: x, Key: i % 4, N: uint64(i % 3)}}
+		case "AddRefund":
+			return &Item{Op: &Op{K: "AddRefund", N: uint64(i % 11)}}
+		case "SetCode":
+			return &Item{Op: &Op{K: "SetCode", A: x, H: 1 + i%(len(codeBlobs)-1)}}
+		case "Transfer":
+			if i%2 == 0 {
+				return &Item{Op: &Op{K: "Transfer", A: x, B: y, N: uint64(i%5 + 1)}}
+			}
+			return &Item{Op: &Op{K: "Transfer", A: y, B: x, N: uint64(i%3 + 1)}}
+		}
+		return &Item{Op: &Op{K: "ALSlot", A: baseAddrs[i%len(baseAddrs)], Key: i / len(baseAddrs) % 4}}
+	}
+	obs := []*Op{{K: "GetLogs", H: 0}, {K: "GetRefund"}, {K: "GetNonce", A: x}, {K: "GetBalance", A: x}, {K: "GetBalance", A: y}, {K: "GetCodeHash", A: x},
+		{K: "GetData", A: x, Key: 0}, {K: "GetData", A: x, Key: 1}, {K: "GetTransient", A: x, Key: 0}, {K: "GetTransient", A: x, Key: 1}, {K: "ALHasSlot", A: x, Key: 1}}
+	prog := []*Item{{Op: &Op{K: "AddBalance", A: x, N: 100000}}, {Op: &Op{K: "AddBalance", A: y, N: 100000}}}
+	for i := 0; i < before; i++ {
+		prog = append(prog, mk(i))
+	}
+	var body []*Item
+	for i := 0; i < inside; i++ {
+		body = append(body, mk(before+i))
+	}
+	prog = append(prog, &Item{Body: body, Rv: true, Obs: obs})
+	for i := 0; i < 3; i++ {
+		prog = append(prog, mk(before+inside+i))
+	}
+	return prog, fmt.Sprintf("volume: %d x %s before the snapshot, %d inside the reverted bracket, 3 after", before, kind, inside)
+}
+
 func coqCodes() string {
 	var p []string
 	for i := 1; i < len(codeBlobs); i++ {
 		p = append(p, fmt.Sprintf("kv %d %s", i, hx.CoqHex(codeBlobs[i])))
 	}
 	return "[" + strings.Join(p, "; ") + "]"
+}
+
+// diffShow prints a long answer as its length, the part around the first difference with the other answer, and its end
+func diffShow(x, other string) string {
+	if len(x) <= 300 {
+		return x
+	}
+	i := 0
+	for i < len(x) && i < len(other) && x[i] == other[i] {
+		i++
+	}
+	lo, hi := i-60, i+120
+	if lo < 0 {
+		lo = 0
+	}
+	if hi > len(x) {
+		hi = len(x)
+	}
+	return fmt.Sprintf("<%d chars, first difference at %d> …%s… …%s", len(x), i, x[lo:hi], x[len(x)-60:])
 }
 
 func trunc(s string, n int) string {
